@@ -665,9 +665,19 @@ pub fn enabled(c: &FuChecker, w: &World, pre: &FuObs, g: &FuGhost) -> Vec<FuOp> 
                         // the pool manager tops up this position on behalf of its owner
                         ops.push(FuOp::ProvideLock { u, lp: li, amount: 5000, dur: p.unlocking_duration, lock_id: Some(p.identifier.clone()) });
                     }
+                    if matches!(a, FAlpha::Full | FAlpha::Positions) {
+                        // a "partial" close of exactly everything; operations carrying the other LP token
+                        ops.push(FuOp::ClosePos { u, id: p.identifier.clone(), partial: Some((li, amt)) });
+                        ops.push(FuOp::ExpandPos { u, id: p.identifier.clone(), lp: 1 - li.min(1), amount: 3 });
+                        ops.push(FuOp::ClosePos { u, id: p.identifier.clone(), partial: Some((1 - li.min(1), 1)) });
+                    }
                     if a == FAlpha::Full {
                         ops.push(FuOp::ClosePos { u, id: p.identifier.clone(), partial: Some((li, amt + 1)) });
                     }
+                } else if matches!(a, FAlpha::Full | FAlpha::Positions) {
+                    // closing / topping up a position that is already closed
+                    ops.push(FuOp::ClosePos { u, id: p.identifier.clone(), partial: None });
+                    ops.push(FuOp::ExpandPos { u, id: p.identifier.clone(), lp: li, amount: 3 });
                 }
                 ops.push(FuOp::WithdrawPos { u, id: p.identifier.clone(), emergency: Some(true) });
                 if !p.open || a == FAlpha::Full {
@@ -755,6 +765,17 @@ pub fn enabled(c: &FuChecker, w: &World, pre: &FuObs, g: &FuGhost) -> Vec<FuOp> 
             }
         }
         if matches!(a, FAlpha::Full | FAlpha::Farms) {
+            // epoch / amount shapes outside the valid range: starting now or in the past, ending at or before the start,
+            // starting beyond the configured buffer, a reward below the minimum
+            let buf = pre.cfg.as_ref().map(|x| x.max_farm_epoch_buffer as u64).unwrap_or(14);
+            ops.push(farm_op(fee, C, 0, Some(cur), Some(cur + 3), (rd, 3000), Some("e1")));
+            if cur >= 1 {
+                ops.push(farm_op(fee, C, 0, Some(cur - 1), Some(cur + 3), (rd, 4000), Some("e2")));
+            }
+            ops.push(farm_op(fee, C, 0, Some(cur + 2), Some(cur + 2), (rd, 2000), Some("e3")));
+            ops.push(farm_op(fee, C, 0, Some(cur + 2), Some(cur + 1), (rd, 2000), Some("e4")));
+            ops.push(farm_op(fee, C, 0, Some(cur + buf + 1), Some(cur + buf + 3), (rd, 2000), Some("e5")));
+            ops.push(farm_op(fee, C, 0, Some(cur + 1), Some(cur + 3), (rd, 998), Some("e6")));
             // fund shapes: overpaid fee, underpaid fee, extra coin, missing fee coin
             let base = farm_op(fee, C, 0, Some(cur + 1), Some(cur + 3), (rd, 2000), Some("f"));
             if let FuOp::CreateFarm { u, lp, start, end, reward, id, funds } = base.clone() {
@@ -803,6 +824,9 @@ pub fn enabled(c: &FuChecker, w: &World, pre: &FuObs, g: &FuGhost) -> Vec<FuOp> 
                 ops.push(FuOp::ExpandFarm { u: owner, id: f.identifier.clone(), lp: li, reward: (rd_name.clone(), 2 * rate), funds: vec![(rd_name.clone(), 2 * rate)] });
                 ops.push(FuOp::ExpandFarm { u: owner, id: f.identifier.clone(), lp: li, reward: (rd_name.clone(), rate + 1), funds: vec![(rd_name.clone(), rate + 1)] });
                 ops.push(FuOp::ExpandFarm { u: A, id: f.identifier.clone(), lp: li, reward: (rd_name.clone(), rate), funds: vec![(rd_name.clone(), rate)] });
+                // expansion in another denom than the farm's reward
+                let other = if rd_name == "uom" { "uusdc".to_string() } else { "uom".to_string() };
+                ops.push(FuOp::ExpandFarm { u: owner, id: f.identifier.clone(), lp: li, reward: (other.clone(), rate), funds: vec![(other, rate)] });
                 ops.push(FuOp::CloseFarm { u: OWNER, id: f.identifier.clone() });
                 ops.push(FuOp::CloseFarm { u: A, id: f.identifier.clone() });
             }
@@ -835,6 +859,12 @@ pub fn enabled(c: &FuChecker, w: &World, pre: &FuObs, g: &FuGhost) -> Vec<FuOp> 
             if cf.max_unlocking_duration > 200 * DAY {
                 ops.push(FuOp::SetCfg { u: OWNER, field: "max_unlock".into(), val: 50 * DAY });
             }
+            // values the contract must refuse: fewer concurrent farms than before, an empty unlocking range, an expiration
+            // time below a month, a penalty above 100 %
+            ops.push(FuOp::SetCfg { u: OWNER, field: "max_farms".into(), val: cf.max_concurrent_farms.saturating_sub(1) as u64 });
+            ops.push(FuOp::SetCfg { u: OWNER, field: "min_unlock".into(), val: cf.max_unlocking_duration + 1 });
+            ops.push(FuOp::SetCfg { u: OWNER, field: "farm_expiration".into(), val: mantra_dex_std::constants::MONTH_IN_SECONDS - 1 });
+            ops.push(FuOp::SetPenalty { u: OWNER, pct: 101 });
             if cf.farm_expiration_time == mantra_dex_std::constants::MONTH_IN_SECONDS {
                 ops.push(FuOp::SetCfg { u: OWNER, field: "farm_expiration".into(), val: 2 * mantra_dex_std::constants::MONTH_IN_SECONDS });
             }
